@@ -277,8 +277,10 @@ def _(c):
     c.call("self._message_accumulator.close", returns=Ref("Coroutine"), post=["fresh(result)"],
            note="creates the coroutine of MessageAccumulator.close (marks the accumulator closed, then flushes); it runs as the task below")
     c.call("create_task", returns=TASK, post=["fresh(result)", "not result.done()"], note="asyncio task creation")
-    c.call("asyncio.wait", returns=Tup(Set(TASK), Set(TASK)), havoc_all=True, raises=["CancelledError"],
-           note="asyncio.wait(..., FIRST_COMPLETED): suspends until the flush or the sender task has finished")
+    # C02 "stop() returns only after every accepted record is resolved": the wait for the flush has no time limit of its own
+    # (a model that accepts no `timeout=`: with one the call leaves the verified subset and the scenario replay decides)
+    c.call("asyncio.wait", returns=Tup(Set(TASK), Set(TASK)), havoc_all=True, raises=["CancelledError"], kwargs=["return_when"], nargs=1,
+           note="asyncio.wait([flush, sender task], return_when=FIRST_COMPLETED), no timeout: suspends until the flush or the sender task has finished")
     c.call("self._sender.close", havoc_all=True, raises=["BaseException"], note="Sender.close (under contract)")
     c.call("self.client.close", havoc_all=True, raises=["BaseException"], note="AIOKafkaClient.close: closes every connection")
     c.modifies("self._closed")
@@ -298,6 +300,16 @@ def _(c):
     c.ensures_internal("a-normal-return-means-everything-was-closed",
                        "self._closed and implies(not old(self._closed), $client_closed"
                        " and (self._sender is None or self._sender._sender_task is None or $sender_closed))")
+    c.replay_fn = lambda model, ob=None: {"script": _PRODUCER_STOP_SCRIPT}
+
+
+_PRODUCER_STOP_SCRIPT = '''
+import sys
+sys.path.insert(0, "/verif")
+from specs import stop_replay
+bad = stop_replay.sweep()
+VIOLATED = bool(bad); DETAIL = "%d of 3 schedules: %r" % (len(bad), bad[:1])
+'''
 
 
 # the real Fetcher with a stubbed client: close() is called while a per-node task is (a) waiting for the broker,
